@@ -22,7 +22,7 @@ Sp == <<" ">>
 AtomC2(a) == IF a.op = "istrue" THEN CharsOf(a.col)
              ELSE IF a.op = "between" THEN CharsOf(a.col) \o Sp \o CharsOf("between") \o Sp \o LitC(a.lit) \o Sp \o CharsOf("and") \o Sp \o LitC(a.lit2)
              ELSE CharsOf(a.col) \o Sp \o CharsOf(OpText(a.op)) \o Sp \o LitC(a.lit)
-Usable(a) == a.col \in Covered2 /\ a.op # "notbetween" /\ (a.lit.lk = "col" => a.lit.name \in Covered2)
+Usable(a) == "spell" \notin DOMAIN a /\ a.col \in Covered2 /\ a.op # "notbetween" /\ (a.lit.lk = "col" => a.lit.name \in Covered2)
              /\ (a.lit.lk \in {"dec", "bool", "date"} => a.lit.text \in KnownTexts \/ a.lit.text = "")
 (* the character rendering is the string rendering (checked for the atom of every state) *)
 SameText2 == (phase = "done" /\ Usable(atom)) => Str(AtomC2(atom)) = CondText(atom)
